@@ -10,8 +10,27 @@ jobs = 6
 if "-j" in sys.argv:
     jobs = int(sys.argv[sys.argv.index("-j") + 1]); flt = [f for f in flt if f != str(jobs)]
 
+def run_benign(name):
+    e = exp[name]
+    props = [e["property"]] + e.get("also", [])
+    oks = []
+    info = ""
+    for pid in props:
+        evd = tempfile.mkdtemp(prefix="tvself-ev-")
+        env = dict(os.environ, VERIF_EVIDENCE_DIR=evd)
+        r = subprocess.run([os.path.join(V, "tools", "with_patch.sh"), os.path.join(V, "selftest", name),
+                            os.path.join(V, "check"), pid], cwd=V, env=env, stdout=subprocess.PIPE, stderr=subprocess.STDOUT, text=True)
+        subprocess.run(["rm", "-rf", evd])
+        oks.append(r.returncode == 0 and "VIOLATION" not in r.stdout)
+        if not oks[-1]:
+            info += "%s rc=%d %s | " % (pid, r.returncode, " ".join(l.strip() for l in r.stdout.splitlines() if "violation" in l)[:300])
+    return name, all(oks), 0 if all(oks) else 1, info or ("silent on " + ",".join(props))
+
+
 def run(name):
     e = exp[name]
+    if e.get("benign"):
+        return run_benign(name)
     evd = tempfile.mkdtemp(prefix="tvself-ev-")
     env = dict(os.environ, VERIF_EVIDENCE_DIR=evd)
     r = subprocess.run([os.path.join(V, "tools", "with_patch.sh"), os.path.join(V, "selftest", name),
@@ -28,7 +47,8 @@ names = sorted(n for n in exp if not flt or any(f in n for f in flt))
 bad = 0
 with cf.ThreadPoolExecutor(jobs) as ex:
     for name, ok, rc, info in ex.map(run, names):
-        print("%s %s rc=%d %s" % ("CAUGHT " if ok else "MISSED ", name, rc, info.strip()))
+        tag = ("SILENT " if ok else "FALSE-ALARM ") if exp[name].get("benign") else ("CAUGHT " if ok else "MISSED ")
+        print("%s %s rc=%d %s" % (tag, name, rc, info.strip()))
         bad += 0 if ok else 1
 print("selftest: %d variants, %d missed" % (len(names), bad))
 sys.exit(1 if bad else 0)
